@@ -22,7 +22,7 @@ func init() { core.Register(&area{}) }
 func (a *area) Name() string { return "query" }
 
 // number of dedicated deterministic cases (witnesses of the recorded findings and fixed shapes)
-const nFixed = 16
+const nFixed = 19
 
 func (a *area) Run(c *core.Ctx) error {
 	for i := 0; i < c.N; i++ {
@@ -421,17 +421,42 @@ func runRandom(c *core.Ctx, idx int) {
 	spf := r.spf
 	// out-of-region budget: a minority of cases may contain the excluded window order
 	_ = rng.Intn(5) // (kept: the random stream of the cases is unchanged)
-	// series universe: tags k1, k2 with values 1..3
+	// series universe: tags k1, k2 with values 1..3; in two cases out of five some series omit k1
+	// and/or k2 (a group-by on a key drops the series without it; after a reopen a source may hold
+	// only such series)
 	nSeries := 1 + rng.Intn(4)
+	partial := rng.Intn(5) < 2
 	var sdefs []seriesDef
 	seen := map[[2]int]bool{}
 	for len(sdefs) < nSeries {
 		a, b := 1+rng.Intn(3), 1+rng.Intn(3)
+		if partial {
+			switch rng.Intn(6) {
+			case 0:
+				a = 0
+			case 1:
+				b = 0
+			case 2:
+				if rng.Intn(3) == 0 {
+					a, b = 0, 0
+				}
+			}
+		}
 		if seen[[2]int{a, b}] {
 			continue
 		}
 		seen[[2]int{a, b}] = true
-		sdefs = append(sdefs, seriesDef{id: len(sdefs) + 1, tags: map[int]int{1: a, 2: b}})
+		tags := map[int]int{}
+		if a != 0 {
+			tags[1] = a
+		}
+		if b != 0 {
+			tags[2] = b
+		}
+		if len(tags) < 2 {
+			c.Branch("gen/series-without-a-tag-key")
+		}
+		sdefs = append(sdefs, seriesDef{id: len(sdefs) + 1, tags: tags})
 	}
 	famChoices := [][]int{{0}, {0, 1}, {0, 1, 2}, {11, 12}, {10, 11, 12}, {0, 12}}[rng.Intn(6)]
 	// fields used by the case
@@ -546,7 +571,7 @@ func runRandom(c *core.Ctx, idx int) {
 			}
 		case x < 84:
 			r.compact(pick(rng, famChoices))
-		case x < 87:
+		case x < 87 || (partial && x < 91):
 			r.reopen()
 		default:
 			if len(r.nv.streams) > 0 {
@@ -777,8 +802,9 @@ func (r *run) exprCheckX(q qSpec) {
 				r.c.NonTrivial()
 			}
 			if want.status == "crash" && (have.status == "crash" || have.status == "empty") {
-				// known finding expr-rate-of-valueless-operands-panics (deterministic witness: fixed
-				// case 15); "empty" is the answer of the source with the nil guard in RateCall
+				// finding expr-rate-of-valueless-operands-panics, repaired by fix ad91846 (deterministic
+				// witness: fixed case 15, which reports a panic as a regression); "empty" is the answer
+				// of the source with the nil guard in RateCall; the model follows the regenerated flag
 				r.c.Branch("exprx/known:rate-of-nil-array-" + have.status)
 				continue
 			}
